@@ -13,10 +13,6 @@ import c02_gen as G
 
 MAX_POLL = 20          # ParseMessages handles at most 20 frames per call (documented behaviour, part of the property's quantifier)
 
-# confirmed defects that are not repaired (yet): key -> line printed as KNOWN-FINDING.  Reported to the lead; moves to known_findings.json.
-PENDING_KNOWN = {}
-
-
 def frames_of(ops):
     out = []
     for k, o in enumerate(ops):
@@ -150,12 +146,7 @@ def oracle(case, res):
             if got != want:
                 miss = [w for w in want if w not in got]
                 extra = [g for g in got if g not in want]
-                key = 'complete'
-                if 'stale-possible' in ideal.features or ('supersede' in ideal.features and extra and not miss):
-                    # the superseded run kept a slot of its own: it takes capacity, and late frames can still complete it
-                    key = 'complete-stale'
-                elif 'cross-dst' in ideal.features:
-                    key = 'complete-dst'
+                key = 'complete-dst' if 'cross-dst' in ideal.features else 'complete'
                 return '%s:op %d (poll): %d delivered, %d expected; missing %s extra %s [slots=%d features=%s]' % (
                     key, k, len(got), len(want), str([(m[1], m[2], m[3], m[4]) for m in miss])[:200], str([(m[1], m[2], m[3], m[4]) for m in extra])[:200],
                     ideal.slots, ','.join(sorted(ideal.features)))
@@ -163,9 +154,6 @@ def oracle(case, res):
 
 
 def known(case, what):
-    key = what.split(':')[0]
-    if key in PENDING_KNOWN:
-        return PENDING_KNOWN[key]
     for k in vlib.known_findings('C02'):
         if what.startswith(k['key']):
             return k['line']
